@@ -1,8 +1,201 @@
-import Jap.Core.Resolver
+/-
+C13 — Parameters resolved through **kwargs are exactly those the code accepts.
+
+`resolve` (the resolver's algorithm) and `accepts` (Python's keyword binding along the real MRO)
+are two independent definitions in `Jap/Core/Resolver.lean`; both are tied to the real
+`get_signature_parameters` / the real interpreter by the correspondence of harness/props/c13.py.
+
+Full statement (what the property asks, for every program of the mini language):
+    ∀ P c n,  n ∈ names (resolve P c) ↔ accepts P c n = true
+It is FALSE for the model, hence for the code (each witness below is also a corpus case that the
+harness confirms on the real resolver and the real interpreter):
+  * `full_fails_get_forward`        kwargs.get(n, d) followed by forwarding (DESIGN §7 #14b)
+  * `full_fails_pop_hardcoded`      a popped name hard-coded in the forwarding call (#14d)
+  * `full_fails_inherited_init`     class without own __init__, inherited __init__ hard-codes positionals
+  * `full_fails_conditional_crash`  AttributeError inside group_parameters → fallback resolver
+  * `full_fails_kwargs_unused`      **kwargs taken and never forwarded (every name accepted; `WfProg` demands a use)
+`C13_exact` is the statement under the decidable hypothesis `WfProg` (acyclic; every body that takes
+**kwargs is pops-then-one-forwarding-call, no `get`, no popped name hard-coded, hard-coded positionals
+fit; a class without own __init__ inherits one whose super() call hard-codes no more positionals than it
+has parameters) and "the AST resolver does not hit the AttributeError" (`resolveOut P c ≠ .crash`).
+-/
+import Jap.Lemmas.ResolverSig
 
 namespace Jap.Props.C13
 open Jap.Resolver
 
-theorem placeholder : names ([] : List Param) = [] := rfl
+/-- Termination is an obligation: on an acyclic program (callees and base classes have smaller
+    indices) `bound P` = (number of entries + 1) × (longest MRO + 4) units of fuel are enough — the
+    resolver never runs dry and more fuel never changes the answer. -/
+theorem C13_fuel_suffices (P : Prog) (c : CId) (hP : P.acyclic = true) (hc : c.valid P = true) :
+    resolveOut P c ≠ .nofuel ∧ ∀ fuel, P.bound ≤ fuel → resolveF fuel P c.frame = resolveOut P c := by
+  have hv := goodFrame_valid (valid_good hc)
+  have hmu := mu_lt_bound hv
+  obtain ⟨h1, h2⟩ := fuel_stable hP P.bound c.frame hv hmu
+  exact ⟨h1, fun fuel hf => h2 fuel (by omega)⟩
+
+/-- THE property: for every well-formed program — any hierarchy depth, any MRO linearisation given as
+    input, functions, methods, classmethods — the offered names are exactly the names a call can pass:
+    no offered parameter raises *unexpected keyword* / *multiple values*, no acceptable parameter is
+    missing, hard-coded ones are excluded. -/
+theorem C13_exact (P : Prog) (c : CId) (hW : WfProg P = true) (hc : c.valid P = true)
+    (hnc : resolveOut P c ≠ .crash) (n : String) :
+    n ∈ names (resolve P c) ↔ accepts P c n = true := by
+  have hg := valid_good hc
+  have hmu := mu_lt_bound (goodFrame_valid hg)
+  have hnf := (C13_fuel_suffices P c (WfProg_acyclic hW) hc).1
+  unfold resolve accepts
+  cases hR : resolveOut P c with
+  | crash => exact absurd hR hnc
+  | nofuel => exact absurd hR hnf
+  | ok R =>
+    simp only
+    exact frame_exact hW n (P.bound) c.frame hmu hg P.bound P.bound hmu hmu R hR
+
+/-- instantiating with an offered parameter never raises unexpected-keyword (one direction, named) -/
+theorem C13_offered_accepted (P : Prog) (c : CId) (hW : WfProg P = true) (hc : c.valid P = true)
+    (p : Param) (hp : p ∈ resolve P c) : accepts P c p.name = true := by
+  by_cases hnc : resolveOut P c = .crash
+  · simp [resolve, hnc] at hp
+  · exact (C13_exact P c hW hc hnc p.name).1 (mem_names.2 ⟨p, hp, rfl⟩)
+
+/-- A name that every use of `kwargs` in the visited body hard-codes (forwarding calls) or does not
+    mention (pops/gets), and that is not an own parameter, is not offered — for EVERY program, no
+    well-formedness needed (this is what applying `removed_params` after grouping buys). -/
+theorem C13_hardcoded_not_offered (P : Prog) (c : CId) (wh : Where) (body : Callable) (n : String)
+    (hb : frameBody P c.frame = some (wh, body))
+    (hown : n ∉ names body.params)
+    (huses : ∀ u ∈ liveUses body.uses, (∀ p ∈ useDefs u, p.name ≠ n) ∧ (u.isForward = true → n ∈ u.given)) :
+    n ∉ names (resolve P c) := by
+  unfold resolve
+  cases hR : resolveOut P c with
+  | crash => simp [names]
+  | nofuel => simp [names]
+  | ok R =>
+    simp only
+    unfold resolveOut at hR
+    cases hbd : P.bound with
+    | zero => rw [hbd] at hR; simp [resolveF] at hR
+    | succ f =>
+      rw [hbd] at hR
+      exact hardcoded_not_in hb hR hown huses
+
+/-- Every offered parameter carries name, type, default and kind of a definition of the program
+    (a signature parameter or a `kwargs.pop/get` of some callable) unless the resolver marked it
+    `Conditional<ast-resolver>` (the documented treatment of definitions that disagree) — for EVERY program. -/
+theorem C13_keeps_sig (P : Prog) (c : CId) (p : Param) (hp : p ∈ resolve P c) :
+    p.dflt.isCond = true ∨ ∃ q ∈ P.defs, sameSig p q := by
+  unfold resolve at hp
+  cases hR : resolveOut P c with
+  | crash => simp [hR] at hp
+  | nofuel => simp [hR] at hp
+  | ok R =>
+    simp only [hR] at hp
+    exact sig_inv _ _ _ hR p hp
+
+/-- Shadowing: the parameters of the visited signature are offered as they are, first, and nothing
+    else is offered under one of their names — the child's type and default win. -/
+theorem C13_own_parameters_win (P : Prog) (c : CId) (wh : Where) (body : Callable) (R : List Param)
+    (hb : frameBody P c.frame = some (wh, body)) (hnd : (names body.params).Nodup)
+    (hR : resolveOut P c = .ok R) :
+    (∃ ext, R = body.params ++ ext) ∧
+    ∀ p ∈ body.params, p ∈ R ∧ ∀ q ∈ R, q.name = p.name → q = p := by
+  have hsh := resolveF_shape hR
+  simp only [shapeOf, hb] at hsh
+  obtain ⟨ext, hReq, hext⟩ := hsh
+  refine ⟨⟨ext, hReq⟩, ?_⟩
+  intro p hp
+  subst hReq
+  exact ⟨List.mem_append_left _ hp, fun q hq hname => own_unique hnd hext hp hq hname⟩
+
+/-! ### concrete programs: non-vacuity and the counterexamples to the full statement -/
+
+def dv (s : String) : DVal := ⟨s, s, s⟩
+def pk (n t d : String) : Param := { name := n, ty := [t], dflt := .val (dv d), kind := .posOrKw }
+def req (n t : String) : Param := { name := n, ty := [t], dflt := .empty, kind := .posOrKw }
+def ko (n t d : String) : Param := { name := n, ty := [t], dflt := .val (dv d), kind := .kwOnly }
+def al (u : Use) : GUse := ⟨.always, u⟩
+def klass (init : Option Callable) (mro : List Nat) : Entry := .cls ⟨init, mro, [], []⟩
+
+/-- `class Base: def __init__(self, a: int = 0, b: str = 'x')` -/
+def base : Entry := klass (some ⟨[pk "a" "int" "0", pk "b" "str" "x"], false, []⟩) []
+
+/-- a diamond with cooperative `super()` calls:
+    K0(d=0, **kw) → object;  K1(K0)(b: int = 1, **kw);  K2(K0)(c='c', b: str = 'from-c', **kw) calls super(d=…);
+    K3(K1, K2)(a=3, **kw); MRO of K3 = K1, K2, K0 (an input) -/
+def diamond : Prog := ⟨[
+  klass (some ⟨[pk "d" "int" "0"], true, [al (.superCall none 0 [])]⟩) [],
+  klass (some ⟨[pk "b" "int" "1"], true, [al (.superCall none 0 [])]⟩) [0],
+  klass (some ⟨[pk "c" "str" "c", pk "b" "str" "from-c"], true, [al (.superCall none 0 ["d"])]⟩) [0],
+  klass (some ⟨[pk "a" "int" "3"], true, [al (.pop "z" (dv "9")), al (.superCall none 0 [])]⟩) [1, 2, 0]]⟩
+
+example : WfProg diamond = true := by decide
+example : resolveOut diamond (.entry 3) ≠ .crash := by decide
+/-- offered: own `a`, the pop `z`, `b` with the type of K1 (first in the MRO), `c`; `d` is hard-coded by K2 -/
+example : resolve diamond (.entry 3) =
+    [pk "a" "int" "3", { name := "z", ty := [], dflt := .val (dv "9"), kind := .kwOnly }, pk "b" "int" "1", pk "c" "str" "c"] := by
+  decide
+example : accepts diamond (.entry 3) "b" = true ∧ accepts diamond (.entry 3) "d" = false ∧
+    accepts diamond (.entry 3) "z" = true ∧ accepts diamond (.entry 3) "nope" = false := by decide
+/-- seen from K2 alone (another linearisation) `d` is hard-coded as well, `b` is K2's own -/
+example : names (resolve diamond (.entry 2)) = ["c", "b"] := by decide
+
+/-- hard-coded positional + keyword-only + function chain + class without own `__init__` -/
+def chain : Prog := ⟨[
+  .fn ⟨[req "a" "int", pk "b" "str" "x", ko "c" "float" "2.5"], false, []⟩,
+  .fn ⟨[pk "p" "int" "1"], true, [al (.pop "n" (dv "3")), al (.call (.entry 0) 1 ["c"])]⟩,
+  klass (some ⟨[pk "k" "int" "0"], true, [al (.call (.entry 1) 0 ["p"])]⟩) [],
+  klass none [2]]⟩
+
+example : WfProg chain = true := by decide
+example : names (resolve chain (.entry 3)) = ["k", "n", "b"] := by decide
+example : accepts chain (.entry 3) "a" = false ∧ accepts chain (.entry 3) "b" = true := by decide
+
+/-- #14b: `extra = kwargs.get('extra', 5); super().__init__(**kwargs)` -/
+def progGet : Prog := ⟨[base,
+  klass (some ⟨[pk "c" "int" "1"], true, [al (.get "extra" (dv "5")), al (.superCall none 0 [])]⟩) [0]]⟩
+
+theorem full_fails_get_forward :
+    ¬ ("extra" ∈ names (resolve progGet (.entry 1)) ↔ accepts progGet (.entry 1) "extra" = true) := by decide
+
+example : WfProg progGet = false := by decide
+
+/-- #14d: `a = kwargs.pop('a', 9); super().__init__(a=5, **kwargs)` -/
+def progPopHard : Prog := ⟨[base,
+  klass (some ⟨[pk "c" "int" "1"], true, [al (.pop "a" (dv "9")), al (.superCall none 0 ["a"])]⟩) [0]]⟩
+
+theorem full_fails_pop_hardcoded :
+    ¬ ("a" ∈ names (resolve progPopHard (.entry 1)) ↔ accepts progPopHard (.entry 1) "a" = true) := by decide
+
+example : WfProg progPopHard = false := by decide
+
+/-- `class K2(K1): pass`, `K1.__init__(self, **kwargs): super().__init__(1, **kwargs)`, `K0.__init__(self, b, c='x')` -/
+def progInherited : Prog := ⟨[
+  klass (some ⟨[req "b" "int", pk "c" "str" "x"], false, []⟩) [],
+  klass (some ⟨[], true, [al (.superCall none 1 [])]⟩) [0],
+  klass none [1, 0]]⟩
+
+theorem full_fails_inherited_init :
+    ¬ ("c" ∈ names (resolve progInherited (.entry 2)) ↔ accepts progInherited (.entry 2) "c" = true) := by decide
+
+example : WfProg progInherited = false := by decide
+/-- asked directly, the class that defines the `__init__` is fine -/
+example : names (resolve progInherited (.entry 1)) = ["c"] := by decide
+
+/-- K1 pops `a` with another default than the parent's (→ Conditional, tuple origin, first in its list);
+    K2(K1) pops `z` and forwards: `group_parameters` raises, `z` is lost -/
+def progCrash : Prog := ⟨[base,
+  klass (some ⟨[], true, [al (.pop "a" (dv "7")), al (.superCall none 0 [])]⟩) [0],
+  klass (some ⟨[], true, [al (.pop "z" (dv "7")), al (.superCall none 0 [])]⟩) [1, 0]]⟩
+
+theorem full_fails_conditional_crash :
+    WfProg progCrash = true ∧ resolveOut progCrash (.entry 2) = .crash ∧
+    ¬ ("z" ∈ names (resolve progCrash (.entry 2)) ↔ accepts progCrash (.entry 2) "z" = true) := by decide
+
+/-- `def __init__(self, x: int = 1, **kwargs): pass` — every name is accepted, none can be offered -/
+def progUnused : Prog := ⟨[klass (some ⟨[pk "x" "int" "1"], true, []⟩) []]⟩
+
+theorem full_fails_kwargs_unused :
+    ¬ ("anything" ∈ names (resolve progUnused (.entry 0)) ↔ accepts progUnused (.entry 0) "anything" = true) := by decide
 
 end Jap.Props.C13
